@@ -382,6 +382,9 @@ func (r *recog) primary() (*Cond, bool) {
 		return &Cond{Op: "in", Args: args}, true
 	}
 	// a bare function call as a condition
+	if l.fn == "size" {
+		return nil, false // size() yields a number: an operand, never a condition of its own
+	}
 	if l.fn != "" {
 		op, known := boolFns[l.fn]
 		c := &Cond{Op: op}
